@@ -10,6 +10,7 @@ mod ops_data;
 mod ops_acc;
 mod ops_adv;
 mod ops_flow;
+mod ops_issue;
 mod ops_pok;
 mod ops_registry;
 mod util;
@@ -19,6 +20,7 @@ fn dispatch(v: &Value) -> Value {
     match op {
         o if o.starts_with("d_") => ops_data::run(o, v),
         "f_pok" | "f_sigv" => ops_pok::run(op, v),
+        "f_issue" | "f_schema_new" => ops_issue::run(op, v),
         "f_pres" => ops_adv::run(op, v),
         "f_acc" => ops_acc::run(op, v),
         "f_registry" => ops_registry::run(op, v),
